@@ -7,11 +7,17 @@
     for closure instances, actor values, user Rets and termination notifiers ([C16_released_once_partial]), where
     [C16_decomposition] shows that C16_ok is exactly the conjunction of the flag check (no leak report, no
     impossible code, no use of a freed cell) and the at-most-once monitors of these kinds and of the others.
-    Not yet proved: the same for tokens, Fwd objects and orphaned value tokens (not in the census of Lin.v), and
-    the flag check (nothing leaks outside the classes of F4/F5/F7; no access to a freed cell). *)
+    Proved for every program (layerRproofs2, R/LinRef*.v, LinUaf*.v, LinFlags.v): the flag check except its leak
+    conjunct -- no access to an actor cell that is gone (neither "not in the table" nor "already freed": [C16_no_uaf],
+    from the reference census: a holder exists => the cell is in the table, not freed, MinRc count >= 1; a freed cell
+    keeps count 0) and no "impossible" code ([C16_flags_no_leak_part]); hence C16_flags_ok holds as soon as the trace
+    reports no leak ([C16_flags_of_no_leak]).
+    Not yet proved: at-most-once for tokens, Fwd objects and orphaned value tokens (not in the census of Lin.v), and
+    the leak conjunct of the flag check (nothing leaks outside the classes of F4/F5/F7 and the documented 'defer after
+    the Stakker is dropped' case). *)
 From Coq Require Import ZArith NArith List Bool.
 Import ListNotations.
-From Stk Require Import Lib.U Gen.SrcCount R.Syntax R.Rt R.Mon R.Count R.OneStep R.C16Proofs.
+From Stk Require Import Lib.U Gen.SrcCount R.Syntax R.Rt R.Mon R.Count R.OneStep R.C16Proofs R.LinUafInv R.LinFlags.
 Local Open Scope Z_scope.
 
 Theorem C16_heap_partial :
@@ -43,3 +49,21 @@ Example C16_once_table :
   C16_once_ok K16_lin [EActor 2; EReady 2; EValDrop 2; ENotify 2 None] = true /\
   C16_once_ok K16_lin [EActor 2; ENotify 2 None; ENotify 2 None] = false.
 Proof. exact C16_once_rejects. Qed.
+
+(* no access to an actor cell that is gone: the model's defensive M_UAF branches are unreachable, for every program *)
+Theorem C16_no_uaf : forall (d : dkind) (p : list top) (fuel : nat) (t : list ev),
+  exec d fuel p = Done t ->
+  forallb (fun e => match e with EModel c _ => negb (N.eqb c M_UAF) | _ => true end) t = true.
+Proof. exact no_uaf. Qed.
+Print Assumptions C16_no_uaf.
+
+(* the flag check without its leak conjunct *)
+Theorem C16_flags_no_leak_part : forall (d : dkind) (p : list top) (fuel : nat) (t : list ev),
+  exec d fuel p = Done t -> forallb flag16_nl t = true.
+Proof. exact C16_flags_noleak. Qed.
+Print Assumptions C16_flags_no_leak_part.
+
+Theorem C16_flags_of_no_leak : forall (d : dkind) (p : list top) (fuel : nat) (t : list ev),
+  exec d fuel p = Done t -> (forall k i, ~ In (ELeak k i) t) -> C16_flags_ok t = true.
+Proof. exact C16_flags_of_noleak. Qed.
+Print Assumptions C16_flags_of_no_leak.
